@@ -13,8 +13,11 @@ Line protocol of the `localrec` component (C01).  Per case (a `#` line resets th
   localrec <tid> exit               })  closure returned                            → ok | rejected
   localrec <tid> unwind             })  a panic unwound through the closure frame   → ok | rejected
   localrec <tid> setglobal <r>      set_global_recorder(r)                          → ok | err
+  localrec <tid> keepref            kept = with_recorder(|r| r)   (type probe)      → rejected
+  localrec <tid> dupguard <g>       g.clone() / g used after move (type probe)      → rejected
   localrec <tid> emit <form#>       the form-th macro call of the compiled table    →
-        <target> stale=<0|1> lifo=<0|1> <row>
+        <target> stale=<0|1> lifo=<0|1> handle=<target|~> <row>
+     handle   = the recorder whose register_* made the handle the call site got (`~` for describe_* forms)
      <target> = loc:<r> | glob:<r> | noop      lifo = thread's ops so far were all LIFO / no forget
      <row>    = <r|d><c|g|h> <name> <labels k:v,…> <target|~> <level|~> <module_path|~> <unit|~> <desc|~>   (hex strings)
 -/
@@ -51,7 +54,9 @@ def outS (lifo : Bool) : Out → String
   | .ok => "ok"
   | .err => "err"
   | .rejected => "rejected"
-  | .emitted e => s!"{targetS e.target} stale={b01 e.stale} lifo={b01 lifo} {rowS (expand modPath e.call)}"
+  | .emitted e =>
+    let h := match handleOf e with | some tg => targetS tg | none => "~"
+    s!"{targetS e.target} stale={b01 e.stale} lifo={b01 lifo} handle={h} {rowS (expand modPath e.call)}"
 
 def parseOp : List String → Option Op
   | ["install", r] => r.toNat?.map .install
@@ -62,6 +67,8 @@ def parseOp : List String → Option Op
   | ["exit"] => some (.exit false)
   | ["unwind"] => some (.exit true)
   | ["setglobal", r] => r.toNat?.map .setGlobal
+  | ["keepref"] => some .keepRef
+  | ["dupguard", g] => g.toNat?.map .dupGuard
   | ["emit", f] => do
     let i ← f.toNat?
     let c ← forms[i]?
